@@ -116,3 +116,47 @@ proof fn lemma_okfin_step<V: Clone>(t: Tree<V>, t2: Tree<V>, side: int, c: Tree<
         assert(bal(t2));
     }
 }
+
+// ---- C14 "height stays logarithmic": a consequence of the weight-balance invariant, for all trees
+spec fn height<V: Clone>(t: Tree<V>) -> nat
+    decreases t
+{
+    match t {
+        None => 0,
+        Some(rc) => match *rc {
+            Node::Data(d) => 1 + (if height(d.left) >= height(d.right) { height(d.left) } else { height(d.right) }),
+            Node::Mapping(_) => 0,
+        },
+    }
+}
+spec fn ipow(b: nat, e: nat) -> nat decreases e { if e == 0 { 1 } else { b * ipow(b, (e - 1) as nat) } }
+
+/// 4^height(t) <= 3^height(t) * (size(t) + 1), i.e. height(t) <= log_{4/3}(size(t) + 1)
+proof fn lemma_height_log<V: Clone>(t: Tree<V>)
+    requires tb(t), bal(t)
+    ensures ipow(4, height(t)) <= ipow(3, height(t)) * (nsz(t) + 1)
+    decreases t
+{
+    lemma_bal_unfold(t);
+    if t is Some {
+        let l = lft(t); let r = rgt(t);
+        lemma_height_log(l); lemma_height_log(r);
+        let c = if height(l) >= height(r) { l } else { r };
+        let h = height(c);
+        assert(height(t) == h + 1);
+        // the heavier-in-height child has at most 3/4 of the weight
+        assert(4 * (nsz(c) + 1) <= 3 * (nsz(t) + 1)) by { reveal(wbal); }
+        let a = ipow(4, h); let b = ipow(3, h); let wc = nsz(c) + 1; let wt = nsz(t) + 1;
+        assert(a <= b * wc);
+        assert(ipow(4, h + 1) == 4 * a);
+        assert(ipow(3, h + 1) == 3 * b);
+        assert(4 * a <= 3 * b * wt) by (nonlinear_arith) requires a <= b * wc, 4 * wc <= 3 * wt;
+        assert(3 * b * wt == (3 * b) * wt) by (nonlinear_arith);
+        assert(ipow(4, height(t)) <= ipow(3, height(t)) * (nsz(t) + 1));
+    } else {
+        assert(height(t) == 0 && nsz(t) == 0);
+        assert(ipow(4, 0) == 1 && ipow(3, 0) == 1);
+        let b = ipow(3, height(t)); let w = nsz(t) + 1;
+        assert(b * w == 1) by (nonlinear_arith) requires b == 1, w == 1;
+    }
+}
